@@ -554,3 +554,53 @@ func (s *Scanner) GoodSeekGuarded(to uint64) {
 }
 
 func (s *Scanner) seekChecked(to uint64) { s.c.seek(uint32(to)) }
+
+// LOCS-IMPLY-FREQNORM
+type flagged struct {
+	includeFreqNorm bool
+	includeLocs     bool
+}
+
+func BadFlagsLocsWithoutFreqNorm(f *flagged, freq, norm, locs bool) {
+	f.includeFreqNorm = freq || norm
+	f.includeLocs = locs
+}
+
+func GoodFlagsLocsImplyFreqNorm(f *flagged, freq, norm, locs bool) {
+	f.includeFreqNorm = freq || norm || locs
+	f.includeLocs = locs
+}
+
+// MEMO-COMMIT
+type rowCache struct {
+	row  int
+	data []int
+}
+
+func (c *rowCache) fetch(row int) error {
+	if row < 0 {
+		return errors.New("no such row")
+	}
+	c.data = append(c.data[:0], row)
+	return nil
+}
+
+func (c *rowCache) BadCommitBeforeLoad(row int) ([]int, error) {
+	if row != c.row {
+		c.row = row
+		if err := c.fetch(row); err != nil {
+			return nil, err
+		}
+	}
+	return c.data, nil
+}
+
+func (c *rowCache) GoodCommitAfterLoad(row int) ([]int, error) {
+	if row != c.row {
+		if err := c.fetch(row); err != nil {
+			return nil, err
+		}
+		c.row = row
+	}
+	return c.data, nil
+}
